@@ -1463,6 +1463,9 @@ class TT():
             eps (float, optional): the relative accuracy. Defaults to 1e-12.
             rmax (int, optional): the maximum rank. Defaults to the maximum possible integer.
 
+        Raises:
+            InvalidArguments: The maximum rank must be at least 1.
+
         Returns:
             torchtt.TT: the result.
         """
@@ -1470,6 +1473,9 @@ class TT():
         # rmax is not list
         if not isinstance(rmax, list):
             rmax = [1] + len(self.__N)*[rmax] + [1]
+
+        if min(rmax) < 1:
+            raise InvalidArguments('The maximum rank must be at least 1.')
 
         # call the round function
         tt_cores, R = round_tt(
